@@ -45,6 +45,8 @@
 /// Low level implementation primitives.
 pub mod core;
 mod lc;
+#[cfg(paseto_verif)]
+pub mod verif;
 
 pub use paseto_core::PasetoError;
 
